@@ -287,7 +287,7 @@ Proof. split; simpl; [discriminate | intros ? ? []]. Qed.
 Lemma lookup_order_In k l o : lookup_order k l = Some o -> exists k', In (k', o) l.
 Proof.
   induction l as [|[k' o'] r IH]; simpl; [discriminate|].
-  destruct (names_eqb k k'); [intros H; inversion H; subst; eexists; left; reflexivity|].
+  destruct (okey_eqb k k'); [intros H; inversion H; subst; eexists; left; reflexivity|].
   intros H. destruct (IH H) as [k2 Hk]. exists k2. now right.
 Qed.
 
@@ -304,7 +304,7 @@ Proof.
   destruct (needed_of g) as [|n0 nr] eqn:En.
   - inversion H; subst. repeat split; auto; [constructor | intros _ ? []].
   - rewrite <- En in *. clear En.
-    destruct (lookup_order (needed_of g) (ec_orders cache)) as [o|] eqn:El.
+    destruct (lookup_order (needed_of g, loaded_names g) (ec_orders cache)) as [o|] eqn:El.
     + inversion H; subst. destruct (lookup_order_In _ _ _ El) as [k' Hk].
       repeat split; eauto.
       intros Hnil. rewrite Hnil in Hk. destruct Hk.
